@@ -466,6 +466,7 @@ func runC04(c *Ctx) {
 	// the reply to the command after a chunk depends on that command only: octets of a binary chunk
 	// (limit lifted) must leave no count behind that refuses the next command line
 	ruleLimiterBypass(c)
+	ruleResultOnEveryExit(c) // the command loop waits for the delivery's result: a goroutine exit (also the recovered panic) that does not send it leaves every later command unanswered
 	ruleNoReplyAfterClose(c) // "one reply per command": a reply written to a closed socket is no reply
 
 	// ---------- R-reply-count ----------
